@@ -106,7 +106,9 @@ def trace (ops : List Op) : Except Err Unit :=
 
 A comptime argument is turned into Python values: a Guppy tuple into a Python `tuple` (immutable), a struct
 into a `GuppyStructObject(…, frozen)`, an array of static non-zero length into a `list` / `frozenlist`;
-`frozen` (= the argument is not borrowed) is passed down to **every** recursive call.  Arrays have one
+`frozen` (= the argument is not borrowed) is passed down to **every** recursive call.  An array of length 0 (or of
+generic size) is handed out as the `GuppyObject` itself: a `leaf` here, and an ordinary tracked object in the trace
+model above (its `__init__` enters it into the dict like any other non-droppable object).  Arrays have one
 element type, so one representative element is kept. -/
 
 inductive Shape where
